@@ -72,8 +72,12 @@ class lmhash(uh.TruncateMixin, uh.HasEncodingContext, uh.StaticHandler):
 
     def _calc_checksum(self, secret):
         # check for truncation (during .hash() calls only)
+        # NOTE: the limit is in bytes of the encoded (upper-cased) password.
         if self.use_defaults:
-            self._check_truncate_policy(secret)
+            encoded = secret
+            if isinstance(encoded, str):
+                encoded = encoded.upper().encode(self.encoding)
+            self._check_truncate_policy(encoded)
 
         return hexlify(self.raw(secret, self.encoding)).decode("ascii")
 
